@@ -1,4 +1,5 @@
 import Ogen.OptNilStates_proof
+import Ogen.JsonCodec_proof
 import Ogen.Generated.Facts_tmpl
 /-!
 # C04 — JSON encoding of generated types round-trips and conforms to the schema (partial)
@@ -9,8 +10,17 @@ state the API exposes (`Get`/`IsNull`/`IsSet`) is preserved exactly, the three s
 wire, and the decoder's output is canonical. The proof also fixes how values must be compared: the Go
 struct does **not** round-trip field by field (a `Value` left behind under `Null` or `Set = false` is
 reset), so the harness compares canonical states, never `reflect.DeepEqual`.
-Not proved: encode/decode of whole schemas (structs, maps, arrays, numbers, strings through jx). That is
-decided on every run on regenerated code: type-directed random Go values that pass their own
+Proved too, on the model `JCodec` of the struct / array / wrapper codec the templates render for the fragment
+*integers, strings, booleans, arrays with possibly nullable items, objects with named properties, each
+required or optional, nullable or not* (over JSON syntax trees, unique member names): every value of a type
+comes back from its own encoding (`codec_round_trip`), the encoding is admitted by the schema
+(`codec_output_valid`), the decoder accepts exactly the documents the schema admits
+(`codec_accepts_iff_valid`), builds only values of the type (`codec_decodes_only_values`) and is canonical
+(`codec_canonical`). The model is tied on every run: regenerated types of random schemas of the fragment
+decode and re-encode random documents (valid in every member order with undeclared members, and
+single-fault mutants) exactly as the model does.
+Not proved: maps, sums, numbers other than integers, formats, strings through jx's tokenizer, validators.
+That is decided on every run on regenerated code: type-directed random Go values that pass their own
 `Validate()` are encoded, the JSON is validated against the source schema by the reference validator,
 and decoded again.
 -/
@@ -38,6 +48,29 @@ theorem absent_keeps_default {α} (zero : α) (pre : W α) : decodeOver zero pre
 theorem facts_generic_decode :
     Facts.Tmpl.genericDecodeNullPath = ["o.Value = v", "o.Set = true", "o.Null = true"] ∧
     Facts.Tmpl.genericDecodeValueResets = ["o.Set = true", "o.Null = false"] := by decide
+
+/-! ### the codec of the object / array / wrapper fragment (`JCodec`) -/
+open JCodec in
+/-- **round trip**: every value of a type comes back from its own encoding -/
+theorem codec_round_trip (t : Ty) (v : Val) (hw : t.WF) (h : WT t v) : JCodec.decode t (JCodec.encode t v) = some v :=
+  JCodec.decode_encode t v hw h
+open JCodec in
+/-- **conforms to the schema**: the encoding of every value of a type is admitted by the schema -/
+theorem codec_output_valid (t : Ty) (v : Val) (hw : t.WF) (h : WT t v) : Valid t (JCodec.encode t v) :=
+  JCodec.encode_valid t v hw h
+open JCodec in
+/-- the decoder accepts exactly the documents the schema admits (missing required member, `null` where not
+    nullable, a wrong JSON type anywhere: refused; undeclared members and any member order: accepted) -/
+theorem codec_accepts_iff_valid (j : Json) (t : Ty) (hw : t.WF) (hu : UniqueKeys j) :
+    (JCodec.decode t j).isSome ↔ Valid t j := JCodec.accept_iff j t hw hu
+open JCodec in
+/-- the decoder builds only values of the type: `omitted` only for optional members, `null` only for nullable ones -/
+theorem codec_decodes_only_values (j : Json) (t : Ty) (v : Val) (h : JCodec.decode t j = some v) : WT t v :=
+  JCodec.decode_wt j t v h
+open JCodec in
+/-- decoding is canonical -/
+theorem codec_canonical (t : Ty) (j : Json) (v : Val) (hw : t.WF) (h : JCodec.decode t j = some v) :
+    JCodec.decode t (JCodec.encode t v) = some v := JCodec.decode_canonical t j v hw h
 
 /-- the struct itself does not round-trip (why the comparison goes through `state`) -/
 theorem struct_not_preserved : decode 0 (encode (⟨true, true, 5⟩ : W Nat)) ≠ ⟨true, true, 5⟩ := by decide
